@@ -816,6 +816,241 @@ def check_c20(tier, seed, replay):
     return 1 if violations else 0
 
 
+def build_conc(kind):
+    """h_conc built from /repo's current tree: kind = 'tsan' | 'hook'."""
+    import hashlib
+    src = os.path.join(vlib.VERIF, 'harness', 'conc', 'h_conc.cpp')
+    flags = {'tsan': ['-std=c++17', '-O1', '-g', '-fsanitize=thread'],
+             'hook': ['-std=c++17', '-O1', '-g', '-DTROMPELOEIL_VERIF', '-DTROMPELOEIL_CUSTOM_RECURSIVE_MUTEX']}[kind]
+    key = vlib.repo_hash(hashlib.sha256(open(src, 'rb').read()).hexdigest() + kind)
+    out = os.path.join(vlib.BUILD, key, 'conc')
+    exe = os.path.join(out, 'h_conc_' + kind)
+    if os.path.exists(exe):
+        os.utime(os.path.join(vlib.BUILD, key))
+        return exe
+    os.makedirs(out, exist_ok=True)
+    r = vlib.sh(['g++'] + flags + ['-I' + os.path.join(vlib.REPO, 'include'), src, '-o', exe + '.tmp', '-lpthread'])
+    if r.returncode != 0:
+        raise vlib.BuildError('h_conc (%s) does not compile against /repo:\n%s' % (kind, r.stderr[-3000:]))
+    os.rename(exe + '.tmp', exe)
+    vlib.prune_builds({key})
+    return exe
+
+
+def replay_linearization(tmodel, ops):
+    """ops: list of (first_ticket, last_ticket, text).  Replays the operations of scenario l1 on the World model
+    in critical-section order (an expectation statement is linearized at its last critical section, the hook into
+    the mock's list; every other operation is one critical section).  -> None or a description of the mismatch."""
+    order = sorted(ops, key=lambda o: (o[1], o[0]))
+    lines = ['mock 0 1']
+    expect = []      # what each line must answer (None = don't care)
+    idmap = {}
+    for first, last, text in order:
+        t = text.split()
+        if t[0] == 'expect':
+            hid = int(t[1])
+            mid = len(idmap)
+            idmap[hid] = mid
+            lines.append('expect %d 0 1 P %s W X R val:%d T %s %s 1 S O 1 0 0' % (mid, t[2], 1000 + hid, t[3], t[4]))
+            expect.append('-')
+        elif t[0] == 'call':
+            res = int(t[3])
+            lines.append('call 0 1 %s' % t[1])
+            expect.append(('res rep' if res == -2 else 'res val:%d' % res, 'call'))
+        elif t[0] in ('sat', 'satd'):
+            if int(t[1]) not in idmap:
+                return 'operation on expectation %s linearized before its creation: %s' % (t[1], text)
+            lines.append('%s %d' % (t[0], idmap[int(t[1])]))
+            expect.append(('ans ' + t[3], 'ans'))
+        elif t[0] == 'release':
+            if int(t[1]) not in idmap:
+                return 'release of %s linearized before its creation' % t[1]
+            lines.append('release %d' % idmap[int(t[1])])
+            expect.append((int(t[3]), 'release'))
+    out = vlib.run_scripts(tmodel, [lines], 1)[0][0]
+    if out is None or len(out) != len(lines):
+        return 'model did not answer every line'
+    for k, (l, exp) in enumerate(zip(lines[1:], expect)):
+        got = out[k + 1]
+        if exp == '-':
+            if got != '-':
+                return 'line %r: model says %r' % (l, got)
+            continue
+        val, kind = exp
+        if kind == 'call':
+            evs = got.split(' ; ')
+            if evs[-1] != val:
+                return 'after %d operations in critical-section order, %r: implementation %r, sequential model %r' % (k, l, val, evs[-1])
+        elif kind == 'ans':
+            if got != val:
+                return 'after %d operations in critical-section order, %r: implementation %r, sequential model %r' % (k, l, val, got)
+        else:
+            n = 0 if got == '-' else len([e for e in got.split(' ; ') if e.startswith('report ')])
+            if n != val:
+                return 'after %d operations in critical-section order, %r: implementation reported %d, sequential model %d' % (k, l, val, n)
+    return None
+
+
+@pure('C12')
+def check_c12(tier, seed, replay):
+    import re
+    import subprocess
+    prop = 'C12'
+    t0 = time.time()
+    q = tier == 'quick'
+    violations = []
+    notes = []
+    lean_dir = lean_workdir()
+    # 1. harnesses from the current tree
+    try:
+        tsan = build_conc('tsan')
+        hook = build_conc('hook')
+    except vlib.BuildError as e:
+        path = vlib.write_replay(prop, tier, seed, 'harness-build',
+                                 ['verdict tie-broken', 'broken correspondence h_conc (does not compile against /repo)'], str(e).split('\n'))
+        print('VIOLATION property=%s replay=%s no-failing-input-found' % (prop, path))
+        return 1
+    nthreads = [2, 4, 8] if q else [2, 3, 4, 6, 8]
+    seeds = [int(seed) * 10 + k for k in range(2 if q else 8)]
+    iters = 150 if q else 500
+    runs = 0
+    # 2. ThreadSanitizer: free running with yield/sleep perturbation
+    env = dict(os.environ)
+    env['TSAN_OPTIONS'] = 'halt_on_error=0:exitcode=66'
+    jobs = [(sc, sd, nt) for sc in ('s1', 's2', 's3', 's4', 's5') for sd in seeds for nt in nthreads]
+
+    def run_tsan(j):
+        sc, sd, nt = j
+        try:
+            p = subprocess.run([tsan, sc, str(sd), str(nt), str(iters)], stdout=subprocess.PIPE, stderr=subprocess.PIPE,
+                               universal_newlines=True, env=env, timeout=180)
+        except subprocess.TimeoutExpired as e:
+            return j, 124, 'FAIL hang: no progress within 180 s (deadlock or livelock)', (e.stderr or b'').decode('utf8', 'replace') if isinstance(e.stderr, bytes) else (e.stderr or '')
+        return j, p.returncode, p.stdout, p.stderr
+    import concurrent.futures as cf
+    with cf.ThreadPoolExecutor(max(2, vlib.NPROC // 4)) as ex:
+        tres = list(ex.map(run_tsan, jobs))
+    races = 0
+    for (sc, sd, nt), rc, out, err in tres:
+        runs += 1
+        if 'ThreadSanitizer' in err or rc != 0 or 'FAIL' in out:
+            races += 1
+            if races <= 2:
+                head = [l for l in err.split('\n') if l.strip()][:40]
+                path = vlib.write_replay(prop, tier, seed, 'tsan-%s-%d-%d' % (sc, sd, nt),
+                                         ['verdict violation', 'failing schedule found by ThreadSanitizer (or a wrong result): '
+                                          'h_conc_tsan %s %d %d %d' % (sc, sd, nt, iters),
+                                          'build: g++ -std=c++17 -O1 -g -fsanitize=thread -I/repo/include harness/conc/h_conc.cpp -lpthread'],
+                                         [l for l in out.split('\n') if 'FAIL' in l] + head)
+                violations.append((path, False))
+    # 3. instrumented lock: lock table + operations in critical-section order
+    table = collections.Counter()
+    unheld = collections.Counter()
+    lin_fail = 0
+    nops = 0
+    hjobs = [(sc, sd, nt) for sc in ('s1', 's2', 's3', 's4', 's5', 'l1') for sd in seeds for nt in nthreads]
+    try:
+        tmodel = vlib.build_lean(None, vlib.LEAN_DIR)
+    except vlib.BuildError as e:
+        tmodel = os.path.join(vlib.LEAN_DIR, '.lake', 'build', 'bin', 'tmodel')
+
+    def run_hook(j):
+        sc, sd, nt = j
+        try:
+            p = subprocess.run([hook, sc, str(sd), str(nt), str(60 if sc == 'l1' else iters)], stdout=subprocess.PIPE, stderr=subprocess.PIPE,
+                               universal_newlines=True, timeout=180)
+        except subprocess.TimeoutExpired:
+            return j, 124, 'FAIL hang: no progress within 180 s (deadlock or livelock)', ''
+        return j, p.returncode, p.stdout, p.stderr
+    with cf.ThreadPoolExecutor(max(2, vlib.NPROC // 2)) as ex:
+        hres = list(ex.map(run_hook, hjobs))
+    for (sc, sd, nt), rc, out, err in hres:
+        runs += 1
+        ops = []
+        for l in out.split('\n'):
+            m = re.match(r'SITE (\S+) held=(\d+) unheld=(\d+)', l)
+            if m:
+                table[m.group(1)] += int(m.group(2))
+                unheld[m.group(1)] += int(m.group(3))
+                if int(m.group(3)) and len([v for v in violations if 'unheld' in v[0]]) < 2:
+                    path = vlib.write_replay(prop, tier, seed, 'unheld-%s-%d-%d' % (sc, sd, nt),
+                                             ['verdict violation', 'shared state accessed without the global lock at %s (%s times) in: '
+                                              'h_conc_hook %s %d %d' % (m.group(1), m.group(3), sc, sd, nt),
+                                              'build: g++ -std=c++17 -O1 -g -DTROMPELOEIL_VERIF -DTROMPELOEIL_CUSTOM_RECURSIVE_MUTEX -I/repo/include harness/conc/h_conc.cpp -lpthread'],
+                                             [l])
+                    violations.append((path, False))
+            m = re.match(r'OP (\d+) (\d+) (.*)', l)
+            if m:
+                ops.append((int(m.group(1)), int(m.group(2)), m.group(3)))
+        if rc != 0 or 'FAIL' in out:
+            path = vlib.write_replay(prop, tier, seed, 'hook-%s-%d-%d' % (sc, sd, nt), ['verdict violation', 'wrong result in h_conc_hook %s %d %d' % (sc, sd, nt)],
+                                     out.split('\n')[-20:])
+            violations.append((path, False))
+        if sc == 'l1' and ops:
+            nops += len(ops)
+            why = replay_linearization(tmodel, ops)
+            if why:
+                lin_fail += 1
+                if lin_fail <= 2:
+                    path = vlib.write_replay(prop, tier, seed, 'lin-%d-%d' % (sd, nt),
+                                             ['verdict violation', 'the outcomes of this concurrent run are not those of executing the operations one at a '
+                                              'time in critical-section order: ' + why, 'run: h_conc_hook l1 %d %d 60' % (sd, nt)],
+                                             ['%d %d %s' % o for o in sorted(ops, key=lambda o: (o[1], o[0]))])
+                    violations.append((path, False))
+    # 4. regenerate the lock table and re-check the theorems over it
+    gen = os.path.join(lean_dir, 'TrompModel', 'Gen', 'LockTable.lean')
+    rows = ['  ("%s", %d, %d)' % (k, table[k], unheld[k]) for k in sorted(table)]
+    text = ('/- GENERATED by tools/check.py (C12) from an instrumented run of /repo — do not edit. -/\nnamespace Tromp.Gen\n'
+            '/-- (access site, times seen while the thread held the lock, times seen without) -/\n'
+            'def lockTable : List (String × Nat × Nat) := [\n' + ',\n'.join(rows) + '\n]\nend Tromp.Gen\n')
+    # only the set of sites and whether any access was unheld matter for the theorem; counts go to the evidence
+    stable = ('/- GENERATED by tools/check.py (C12) from an instrumented run of /repo — do not edit. -/\nnamespace Tromp.Gen\n'
+              '/-- (access site, 1 if it was seen while the thread held the lock, number of times it was seen without) -/\n'
+              'def lockTable : List (String × Nat × Nat) := [\n' +
+              ',\n'.join('  ("%s", %d, %d)' % (k, 1 if table[k] else 0, unheld[k]) for k in sorted(table)) + '\n]\nend Tromp.Gen\n')
+    if not os.path.exists(gen) or open(gen).read() != stable:
+        with open(gen, 'w') as f:
+            f.write(stable)
+    del text
+    built = True
+    try:
+        vlib.build_lean(prop, lean_dir)
+    except vlib.BuildError as e:
+        built = False
+        if not violations:
+            path = vlib.write_replay(prop, tier, seed, 'lean-build', ['verdict tie-broken', 'broken lake build TrompModel.Props.C12 over the regenerated lock table'],
+                                     str(e).split('\n')[-40:])
+            violations.append((path, True))
+    audit = vlib.lean_audit(prop, lean_dir) if built else dict(obligations=0, discharged=0, theorems=[], problems=[])
+    if audit['problems'] or audit['discharged'] != audit['obligations']:
+        path = vlib.write_replay(prop, tier, seed, 'lean-audit', ['verdict tie-broken', 'broken proof audit'], audit['problems'])
+        violations.append((path, True))
+    wall = time.time() - t0
+    cov = dict(
+        obligations=audit['obligations'], discharged=audit['discharged'],
+        checker_cmd='cd lean && lake build TrompModel.Props.C12 && lake env lean .lake/audit_C12.lean',
+        trusted_base=TRUSTED_BASE + ['ThreadSanitizer (g++ 12.2) and the instrumented recursive mutex of the harness',
+                                     'that the instrumented access sites are all the shared accesses (TSan is the cross-check)'],
+        theorems=[dict(name=n, axioms=a) for n, a in audit['theorems']],
+        programs=runs, traces_validated_against_impl=runs - races - lin_fail, disagreements_checked=races + lin_fail,
+        evaluations=runs, distinct_nontrivial=runs,
+        rule='each run is one (scenario, seed, thread count): 5 scenarios under ThreadSanitizer, the same + the linearization scenario with the '
+             'instrumented lock; thread counts %s, %d seeds, %d iterations per thread' % (nthreads, len(seeds), iters),
+        samples=['h_conc_tsan s2 %d 4 %d' % (seeds[0], iters), 'h_conc_hook l1 %d 8 60' % seeds[0]], exhaustive=False,
+        lock_table={k: dict(held=table[k], unheld=unheld[k]) for k in sorted(table)},
+        linearization_operations_replayed=nops, notes=notes)
+    vlib.write_evidence(prop, tier, seed, 'proof', cov,
+                        ['the caller keeps the documented obligations (no object destroyed while another thread uses it; reporters/tracers not '
+                         'installed concurrently with use)',
+                         'partial: race-freedom and atomicity are PROVED FROM the lock discipline; that every execution obeys the discipline is observed '
+                         '(hooks + TSan) on the explored schedules, not proved; deadlock freedom with user locks and custom mutexes is not covered'],
+                        wall, len(violations))
+    for path, nf in violations:
+        print('VIOLATION property=%s replay=%s%s' % (prop, path, ' no-failing-input-found' if nf else ''))
+    log('[%s] %s: %d runs, %d racy, %d linearization failures, %d ops replayed, %.0fs' % (prop, tier, runs, races, lin_fail, nops, wall))
+    return 1 if violations else 0
+
+
 def main():
     ap = argparse.ArgumentParser()
     ap.add_argument('prop')
